@@ -125,6 +125,8 @@ pub fn gen_flow(r: &mut Rng, cfg: &FlowCfg) -> Flow {
         1 => json!({}),
         _ => gen_selection(r, &claims, cfg.sel_density),
     };
+    // the members of a selection object may come in any order (the disclosures of the presentation follow it)
+    let sel = match r.below(6) { 0 => reorder_members(r, &sel, true), 1 => reorder_members(r, &sel, false), _ => sel };
     Flow {
         issue: IssueArgs { claims, strategy, holder, decoy: r.chance(1, 2), fmt, key, alg, queue: None },
         sel: sel.as_object().cloned().unwrap_or_default(),
